@@ -198,7 +198,7 @@ def confirm_replay(res, v):
         return True, ""
     outs = []
     for _ in range(2):
-        r = subprocess.run([exe, "--replay", rp], env=ENV, stdout=subprocess.DEVNULL, stderr=subprocess.PIPE, text=True, timeout=900)
+        r = subprocess.run([exe, "--tier", res.get("tier", "quick"), "--replay", rp], env=ENV, stdout=subprocess.DEVNULL, stderr=subprocess.PIPE, text=True, timeout=900)
         fails = sorted(set(re.findall(r"VX-FAIL (\S+):", r.stderr)))
         crashed = r.returncode not in (0, 1) or "AddressSanitizer" in r.stderr or "runtime error:" in r.stderr
         outs.append((r.returncode != 0, fails, crashed))
